@@ -1,3 +1,4 @@
+import MuscleModel.Props.C04
 import MuscleModel.Reflector.FrameProofs7
 
 /-!
@@ -243,6 +244,14 @@ theorem departure_no_marks_partial (sv : Server) (sid : Nat) (s : Sess) (hs : sv
       names ∈ travGlobal (detachPre sv sid s) s.subs false cbContinue)
     (names : List Bytes) (n : Node) (hn : getNode (detach sv sid) names = some n) : subCount n.subs sid = 0 :=
   detach_no_marks sv sid s hs hcover names n hn
+
+/-- **Departure, marks — full statement for reachable states.**  In every state reached from the empty server (attach, detach,
+    commands with GoodPath subscriptions, pushes, pumps) the departure of session `sid` leaves NO mark of `sid` on any node:
+    the coverage hypothesis of the `_partial` version above is discharged by the subscriber-table invariant of C04
+    (`marks_correct`: marks sit exactly where a subscription entry matches, so the un-mark traversal reaches all of them). -/
+theorem departure_no_marks {sv : Server} (h : MReach sv) (sid : Nat) {v : List Bytes} {n : Node} (hv : v ≠ [])
+    (hn : getNode (detach sv sid) v = some n) : subCount n.subs sid = 0 :=
+  Muscle.Props.C04.marks_correct_detached h sid hv hn
 
 /-! Non-vacuity: `HostWF` holds in `demoSv`; the coverage hypothesis holds in `orphanSv`, where the node `/x` does carry
     a mark of the departing session and is visited by the un-mark traversal. -/
